@@ -364,7 +364,7 @@ func checkC12(e *Env) {
 					viol(fmt.Sprintf("sequential call %d %s before the goroutines started panicked: %s", r.I, fnName(op.Fn), oneLine(r.Panic, 300)), r)
 					return
 				}
-				if why := e.judgeAgainstRef(op, &r, e.refEval(op)); why != "" {
+				if why := e.confirmedDeviation(drv, op, &r, e.refEval(op)); why != "" {
 					viol(fmt.Sprintf("sequential call %d %s before the goroutines started: %s", r.I, fnName(op.Fn), why), map[string]any{"op": op, "observed": r})
 					return
 				}
@@ -386,7 +386,7 @@ func checkC12(e *Env) {
 				viol(fmt.Sprintf("worker %d %s panicked in a repeated pass: %s", r.G, fnName(op.Fn), oneLine(r.Panic, 300)), r)
 				return
 			}
-			if why := e.judgeAgainstRef(op, r, e.refEval(op)); why != "" {
+			if why := e.confirmedDeviation(drv, op, r, e.refEval(op)); why != "" {
 				viol(fmt.Sprintf("worker %d, %s(lang %d) repeated under contention, returned in %d of its calls something it does not return when run alone: %s", r.G, fnName(op.Fn), op.L, r.Agg, why), map[string]any{"op": op, "observed": r})
 				return
 			}
@@ -456,7 +456,13 @@ func checkC12(e *Env) {
 					x = refExpect{defined: true, errClass: "nil"}
 					obs.Inc("shared_source_calls_matched_exactly_once")
 				}
-				if why := e.judgeAgainstRef(op, r, x); why != "" {
+				why := ""
+				if op.Fn == "new" && op.Shared {
+					why = e.judgeAgainstRef(op, r, x) // the bytes this goroutine drew were matched above
+				} else {
+					why = e.confirmedDeviation(drv, op, r, x)
+				}
+				if why != "" {
 					viol(fmt.Sprintf("worker %d call %d %s(lang %d) does not return what it returns when run alone: %s", w, i, fnName(op.Fn), op.L, why), map[string]any{"op": op, "observed": r})
 					return
 				}
@@ -598,10 +604,10 @@ func checkC12(e *Env) {
 
 // concurrentSmoke is the concurrent flavour of a per-function monitor: a few cold-start
 // processes in which 8-16 goroutines repeat a small pool of calls; every distinct
-// observation is judged by the reference model. (C12 is the full treatment; this only makes
+// observation is judged by the calling monitor's own oracle. (C12 is the full treatment; this only makes
 // sure that a defect which needs concurrency to show is also seen by the check of the
 // property it breaks.)
-func (e *Env) concurrentSmoke(drv, label string, pool []plan.Op, procs, loops int, crashOnly ...bool) (calls int) {
+func (e *Env) concurrentSmoke(drv, label string, pool []plan.Op, procs, loops int, judge func(op *plan.Op, r *plan.Res) string) (calls int) {
 	var mu sync.Mutex
 	parallel(procs, max(1, e.Workers/4), func(pi int) {
 		r := rng.New(e.Seed, label+"-conc-"+itoa(pi))
@@ -635,15 +641,12 @@ func (e *Env) concurrentSmoke(drv, label string, pool []plan.Op, procs, loops in
 				viol(fmt.Sprintf("%s panicked: %s", fnName(op.Fn), oneLine(res.Panic, 300)), res)
 				return
 			}
-			if len(crashOnly) > 0 && crashOnly[0] {
-				mu.Lock()
-				calls += n
-				mu.Unlock()
-				continue
-			}
-			if why := e.judgeAgainstRef(op, res, e.refEval(op)); why != "" {
-				viol(fmt.Sprintf("%s(lang %d) returned in %d of its calls something it does not return when run alone: %s", fnName(op.Fn), op.L, n, why), map[string]any{"op": op, "observed": res})
-				return
+			if judge != nil {
+				// the calling monitor's own oracle; calls it does not judge are only bystanders
+				if why := judge(op, res); why != "" {
+					viol(fmt.Sprintf("%s(lang %d), in %d of its calls: %s", fnName(op.Fn), op.L, n, why), map[string]any{"op": op, "observed": res})
+					return
+				}
 			}
 			mu.Lock()
 			calls += n
@@ -680,6 +683,12 @@ func (e *Env) smokePool(label, kind string) []plan.Op {
 		}
 		if k < 4 {
 			seed = append(seed, plan.Op{Fn: "seed", S: hxs(s), P: hxs([]string{"", "TREZOR", "pa\u00df\uff57ord", " tail"}[k])})
+			// the same arguments in another spelling (U+3000 between the words)
+			seed = append(seed, plan.Op{Fn: "seed", S: hxs(strings.Join(w, "\u3000")), P: hxs([]string{"", "TREZOR", "pa\u00df\uff57ord", " tail"}[k])})
+		}
+		if k%2 == 1 {
+			chk = append(chk, plan.Op{Fn: "chk", L: int64(l), S: hxs(strings.Join(w, "\u3000"))})
+			chk = append(chk, plan.Op{Fn: "chk", L: int64(l), S: hxs(strings.Join(bad, "\u00a0"))})
 		}
 		str = append(str, plan.Op{Fn: "str", L: int64(l)}, plan.Op{Fn: "str", L: int64(1000 + k)}, plan.Op{Fn: "str", L: int64(-1 - k)})
 	}
